@@ -47,12 +47,32 @@ class StoreMap(dict):
     self.ex = ex
 
   def __getitem__(self, k):
+    if isinstance(k, tuple) and k[0] == 'item':
+      # element of a container that itself lives in a box: ('item', parent ident, index/key term, default)
+      _, pid, key, dflt = k
+      parent = self[pid]
+      ps = parent.sort
+      if isinstance(ps, SeqOf):
+        return SV(ps.elem, ps.get(parent.t, key))
+      if dflt is not None:
+        return SV(ps.val, z3.If(ps.has(parent.t, key), ps.get(parent.t, key), dflt))
+      return SV(ps.val, ps.get(parent.t, key))
     if isinstance(k, tuple) and k[0] == 'field':
       _, osort, f, ref = k
       return SV(osort.fields[f], z3.Select(self.ex.heap_arr(osort, f), ref))
     return super().__getitem__(k)
 
   def __setitem__(self, k, v):
+    if isinstance(k, tuple) and k[0] == 'item':
+      _, pid, key, dflt = k
+      parent = self[pid]
+      ps = parent.sort
+      if isinstance(ps, SeqOf):
+        nv = ps.z3().mk(ps.len(parent.t), z3.Store(ps.z3().arr(parent.t), key, self.ex.coerce(v, ps.elem).t))
+        self[pid] = SV(ps, nv)
+      else:
+        self[pid] = self.ex.map_set(parent, SV(ps.key, key), v)
+      return
     if isinstance(k, tuple) and k[0] == 'field':
       _, osort, f, ref = k
       self.ex.heap[(osort.name, f)] = z3.Store(self.ex.heap_arr(osort, f), ref, self.ex.coerce(v, osort.fields[f]).t)
